@@ -39,6 +39,32 @@ func main() {
 		os.Exit(cmdDump(os.Args[2:]))
 	case "list":
 		os.Exit(cmdList(os.Args[2:]))
+	case "paths":
+		p, err := load("/repo")
+		if err != nil {
+			fmt.Println(err)
+			os.Exit(3)
+		}
+		for _, c := range p.Cons.ByFunc {
+			if c.Trusted || !strings.Contains(shortName(c.Fn), os.Args[2]) {
+				continue
+			}
+			fc := &FnCtx{fn: c.Fn}
+			fc.analyseLoops()
+			order, _ := fc.topoOrder()
+			cnt := map[int]int{c.Fn.Blocks[0].Index: 1}
+			for _, b := range order {
+				for _, s := range b.Succs {
+					if !fc.isBackEdge(b, s) {
+						cnt[s.Index] += cnt[b.Index]
+					}
+				}
+				if len(b.Succs) == 0 {
+					fmt.Printf("%s block %d (%s): %d paths\n", shortName(c.Fn), b.Index, b.Comment, cnt[b.Index])
+				}
+			}
+		}
+		os.Exit(0)
 	}
 	fmt.Fprintln(os.Stderr, "unknown command")
 	os.Exit(2)
@@ -113,7 +139,7 @@ func cmdDump(args []string) int {
 		}
 		if *solve {
 			stats := newSolveStats()
-			solveAll(r.VC.obls, solveOpts{timeoutS: *timeout, scratch: scratch, workers: 16}, stats)
+			solveAll(r.VC.obls, solveOpts{timeoutS: *timeout, scratch: scratch, workers: 14}, stats)
 		}
 		for _, o := range r.VC.obls {
 			fmt.Printf("   %-8s %-7s %5.2fs %s  %v\n", o.Kind, o.Status, o.Seconds, o.Name, o.Props)
@@ -210,7 +236,7 @@ func cmdCheck(args []string) int {
 	}
 	scratch, _ := os.MkdirTemp(scratchBase(), "govc")
 	defer os.RemoveAll(scratch)
-	opts := solveOpts{timeoutS: 10, seed: seed, scratch: scratch, workers: 16}
+	opts := solveOpts{timeoutS: 10, seed: seed, scratch: scratch, workers: 14}
 	if *tier == "thorough" {
 		opts.timeoutS = 60
 		opts.allThree = true
